@@ -207,7 +207,13 @@ def g_convert_step(R, tier):
             def run(c):
                 made = []
                 G = CL.mk_global()
-                m = Machine(stubs={"oneliner.namespaces:generate_nsp": lambda it, s, cfg: G})
+                holder = {}
+
+                def pass_stub(it, node, nsp=None, nsp_global=None):
+                    ns_at_dispatch.append((node, nsp, nsp_global))
+                    return holder["child"]
+                ns_at_dispatch = []
+                m = Machine(stubs={"oneliner.namespaces:generate_nsp": lambda it, s, cfg: G, "oneliner.pending_nodes:PendingPass": pass_stub})
                 fr = Frame(ifn, dict(ast_root=Opaque("root", ast.Module), symtable_root=Opaque("st", object), configs=Opaque("cfg", object)), ifn.globals, [], name="convert")
                 m.run(m.exec_block(pre, fr))
                 # arbitrary state: a parent is suspended, a new node is about to be converted
@@ -231,25 +237,18 @@ def g_convert_step(R, tier):
                 lowerP, lowerN = Opaque("lowerP", object), Opaque("lowerN", object)
                 pstack = [lowerP, parent] if arm != "root-finished" else []
                 nstack = [lowerN, Opaque("ns-of-parent", object)] if arm != "root-finished" else [G]
-                ns_at_dispatch = []
-                # get_pending_node is a closure over the stacks: replace the table lookup result
-                tbl = {}
-                for k in list(conv.ast2pending):
-                    tbl[k] = None
+                holder["child"] = child
+                # the REAL closures get_pending_node / pending_top (defined by the prefix) see
+                # these stacks through the frame they close over
                 fr.locals["pending_node_stack"] = pstack
                 fr.locals["nsp_stack"] = nstack
-                node = Opaque("node", ast.stmt)
-
-                def get_pending_node(n):
-                    ns_at_dispatch.append((n, nstack[-1]))
-                    return child
-                fr.locals["get_pending_node"] = HFn(get_pending_node)
-                fr.locals["pending_top"] = HFn(lambda: pstack[-1])
+                top_ns = nstack[-1]
+                node = Opaque("node", ast.stmt, cands=frozenset([ast.Pass]))
                 fr.locals["tobe_converted"] = node
                 fr.locals["result_nodes"] = None
                 fr.locals["nsp_global"] = G
                 sig = m.run(m.exec_block(loop.body, fr))
-                return dict(events=events, pstack=pstack, nstack=nstack, fr=fr.locals, sig=sig, node=node, ns_at_dispatch=ns_at_dispatch, child=child, parent=parent,
+                return dict(events=events, pstack=pstack, nstack=nstack, fr=fr.locals, sig=sig, node=node, ns_at_dispatch=ns_at_dispatch, child=child, parent=parent, top_ns=top_ns,
                             inner_ns=inner_ns, child_result=child_result, lowerP=lowerP, lowerN=lowerN, G=G)
             paths = explore(run)
             nm = f"{base}[{arm},{'own-namespace' if has_ns else 'no-namespace'}]"
@@ -261,7 +260,9 @@ def g_convert_step(R, tier):
                     continue
                 v = p.value
                 ev = v["events"]
-                R.check(f"{nm}/node-dispatched-with-the-namespace-on-top", len(v["ns_at_dispatch"]) == 1 and v["ns_at_dispatch"][0][0] is v["node"], repr(v["ns_at_dispatch"]))
+                R.check(f"{nm}/node-dispatched-with-the-namespace-on-top", len(v["ns_at_dispatch"]) == 1 and v["ns_at_dispatch"][0][0] is v["node"]
+                        and v["ns_at_dispatch"][0][1] is v["top_ns"] and v["ns_at_dispatch"][0][2] is v["G"], repr(v["ns_at_dispatch"]),
+                        replay=dict(kind="src", src="def f():\n    x = 1\n    def g():\n        y = x + 1\n        return y\n    return g()\nr = f()\n", expect="same-globals"))
                 if arm == "child-requests-another-node":
                     okp = v["pstack"][-1] is v["child"] and (v["nstack"][-1] is v["inner_ns"]) == has_ns and len(v["nstack"]) == (3 if has_ns else 2)
                     R.check(f"{nm}/child-pushed-with-its-namespace", okp, f"{v['pstack']} {v['nstack']}")
